@@ -4,12 +4,32 @@ import json, os, subprocess
 HERE = os.path.dirname(os.path.dirname(os.path.abspath(__file__)))
 
 CHECKS = {
+ "C01": dict(
+   category="exploration",
+   text="Runtime monitoring of the real x86 assembler (ASan+UBSan build, strict validation): every database form x mode x systematic operand/prefix/decoration variants (1.3e5 emits quick, ~2e6 thorough) judged by three monitors: our field-level decoder applying the database's encoding rule to the case, GNU objdump's reading of AsmJit's bytes vs. its reading of the same instruction assembled by llvm-mc, and instruction-length agreement of objdump/LLVM. Held on the cases emitted; forms unknown to both decoders get the database-rule verdict only.",
+   design_ref="DESIGN.md section 2, C01", note="Trusts objdump 2.40, LLVM 14, vlib/xdec.py and vlib/x86text.py (harness). UBSan shift-base disabled (arithmetic shifts of negatives are defined behaviour for the compilers/standard the tree targets).",
+   technique="sanitizer build + differential decoding against independent assembler/decoders + database-rule decoder"),
  "C09": dict(
    category="exploration",
    text="Runtime monitoring: bounded-exhaustive (depth 5 quick / 6 thorough over a small op alphabet) and random histories (to 1e5 ops) of the real JitAllocator under ASan+UBSan, every step judged by a sequential model (interval map, shadow contents, statistics, reuse, fill pattern, retention policy) and by hook H2 walking the allocator's bookkeeping under its own lock. Held on the histories executed, nothing more.",
    design_ref="DESIGN.md section 2, C09",
    note="Trusts the model in drv/drv_jitalloc.cpp, gcc ASan/UBSan, and that hook H2 only reads state. Large pages unavailable here (fallback path only).",
    technique="sanitizer build + reference-model monitor over operation histories + invariant hook"),
+ "C13": dict(
+   category="exploration",
+   text="Runtime monitoring over the public API: every database form in allowed and excluded modes plus near-miss mutations, each validated directly, emitted with and without strict validation; verdicts and bytes compared; vendored list of forms accepted by the pinned release; name round trip over all ids of x86/x64/AArch64 and every alias spelling.",
+   design_ref="DESIGN.md section 2, C13", note="AArch64 has no operand validator: only its names are judged here. 'Implemented' = vendor/implemented_x86.json generated from the pinned tree.",
+   technique="differential monitoring of validator vs. encoder verdicts under sanitizers"),
+ "C17": dict(
+   category="exploration",
+   text="Runtime monitoring of the displacement and immediate codecs under ASan+UBSan: every offset format the back ends construct (collected at run time) and a grid of generic formats, exhaustively for fields <= 21 bits (quick) / 26 bits (thorough) plus bands outside the range, judged by independent decoders; all AArch64 logical immediates (ground truth by decoding every N:immr:imms), all FP8 immediates, add/sub, move-wide sequences and bitfield positions through the public emitter, sampled cross-check with llvm-mc. exhaustive_subspaces in the evidence name what was enumerated completely.",
+   design_ref="DESIGN.md section 2, C17", note="Thumb/A32 split formats are not constructed by any back end: memory-safety only, no codec verdict. Fields wider than the exhaustive limit are sampled.",
+   technique="exhaustive/randomised codec round-trip monitoring with independent decoders under sanitizers"),
+ "C18": dict(
+   category="exploration",
+   text="Runtime monitoring under ASan+UBSan+LSan: random operation scripts interleaved across 13 container/string harnesses sharing one Arena, compared with std:: models after every step, structural invariant walks (red-black, hash reachability, list links, null termination), live-block interval map for raw arena blocks, injected allocation failures via hook H1.",
+   design_ref="DESIGN.md section 2, C18", note="Models and invariant walkers in drv/drv_containers.cpp are trusted harness code; String heap failures are not injectable (malloc).",
+   technique="sanitizer build + reference-model monitors (std:: containers) + invariant walks + fault injection"),
 }
 
 NOT_YET = {}
